@@ -42,6 +42,8 @@ def type_of(v):
             return v.pytype
         if isinstance(v, SymColl):
             return v.pytype
+        if isinstance(v, SymList):
+            return list
         if hasattr(v, 'pytype'):
             return v.pytype
         raise Unsupported(f"type of {v!r}")
@@ -72,6 +74,8 @@ def truth(st, v):
         return len(v.items) > 0
     if isinstance(v, SymColl):
         return v.part.n > 0
+    if isinstance(v, SymList):
+        return v.n > 0
     if isinstance(v, SDict):
         return len(v.d) > 0
     if isinstance(v, SSet):
@@ -106,6 +110,9 @@ def identical(a, b):
         # a snapshot taken for old(...) stands for the object it was copied from
         a0 = getattr(a, 'origin', None) or a
         b0 = getattr(b, 'origin', None) or b
+        if a0 is not b0 and getattr(a0, 'tag', None) == 'symlist-element' and getattr(b0, 'tag', None) == 'symlist-element':
+            from .explore import Unsupported
+            raise Unsupported("identity of two elements of a list of symbolic length")
         return a0 is b0
     if type(a).__name__ == 'PyOpaque' or type(b).__name__ == 'PyOpaque':
         return type(a) is type(b) and a.obj is b.obj
